@@ -30,6 +30,9 @@ CHECKS = {
  "C03": ("model_checking", "exhaustive scenario-tree enumeration on the real in-process broker with a wire monitor as oracle, plus explicit-state BFS on the real packet-id limiter",
   "All sequences of publish QoS1/QoS2, subscriber ack steps (oldest/newest outstanding, PUBREC error), cut, reconnect and take-over (clean 0) up to depth 6 (quick) / 7 (thorough) for 5-7 subscriber variants (v5 Receive Maximum vs max_inflight, v3.1.1), each on a fresh broker; the monitor on the subscriber socket checks id uniqueness among outstanding PUBLISH/PUBREL, the window (never exceeded, never idle while messages wait), DUP flags, exact retransmission order after every reconnect, FIFO of new messages. The packet-id limiter is searched breadth-first (poll/release/batch release, cursor jumps to 65534/65535 standing for long histories) for limits 1..3.",
   "Default schedule; races between acks, publishes and connection loss are explored by the schedule DFS scenarios of C15. Trusted: vsched/memconn, refmqtt.", "DESIGN.md 8/C03"),
+ "C05": ("model_checking", "exhaustive scenario-tree enumeration with a virtual clock on the real in-process broker vs a reference session model; stateless schedule DFS (deviation-bounded) for simultaneous CONNECTs",
+  "All sequences of connect variants (v3/v5, clean 0/1, expiry absent/5/MAX, take-over), subscribe, helper publish, DISCONNECT (with new expiry), abrupt close, TerminateSession and clock advances up to depth 4 full / 5 reduced alphabet (quick; +1 thorough) for session_expiry 10s and 2h; the reference decides Session Present, offline-message delivery and subscription survival, observed through a probe publish after every connect and clock step. Simultaneous CONNECTs with one client id (fresh id, stored offline session, clean or not; 2-3 connections) are explored under every schedule with <=1 (quick) / <=2 (thorough) demotions of the running thread: at most one attached socket, displaced socket closed before the displacer's CONNACK, exactly one socket answers PINGREQ, every CONNECT answered.",
+  "Reconnects within 1s of the expiry instant are accepted either way. Schedule exploration is bounded by the number of deviations (a deviation pauses the running thread until all others are blocked). Trusted: vsched/memconn/virtual clock, refmqtt.", "DESIGN.md 8/C05"),
 }
 NA_DEFAULT = "check not built yet in this session (planned design in DESIGN.md section 8)"
 
